@@ -55,6 +55,28 @@ CHECKS = {
    note="trusted: the python reference interpreter (documented behaviour only); not asserted: value of a for variable after its loop, decimal bounds, "
         "precedence between 'null bound' and 'step < 1', a body moving the control variable against the direction of progression",
    design="4/C06"),
+ "C07": dict(
+   technique="reference-interpreter monitor over error-placement enumeration and error-heavy generated programs, three entry routes, residue invariant hooks + probe program + ASan/UBSan",
+   text="One failing operation (raise user/DIVIDE_BY_ZERO/OUT_OF_RANGE, 1/0, chr(300), index error, run-time type error through an opaque parameter, "
+        "errors raised inside a called function's loop, failing argument evaluation) is placed at every position of 14 nestings (plain, for, forall, "
+        "while, if, for-forall, begin inside a loop, a handler that raises again, loop headers and conditions, top-level loops) with 9 inner x 3 outer "
+        "handler-name combinations, and error-heavy random programs are generated; each runs through Executable::run, bloc_execute and the "
+        "statement-at-a-time (CLI-like) route. Which handler ran, error@1, the printed trace, the error reported to the host and final variables must "
+        "equal the reference interpreter's; afterwards the hooked state must show control depth 0, exec level 0, no pending break/continue/return, "
+        "no symbol flag, conserved live contexts, and a probe program (retyping iterators, extending tables, new loops) must run correctly.",
+   note="trusted: python reference interpreter of the manual's Blocks/Raise sections; error@2 text is not asserted; the CLI route is an emulation of "
+        "apps/cli_parser.cpp's statement loop through the public interactive parser (the real bloc -i is exercised by C19)",
+   design="4/C07"),
+ "C08": dict(
+   technique="reference-interpreter monitor + metamorphic twin (call after history vs fresh context) + recursion ladder + live-context conservation hook + ASan/UBSan",
+   text="Generated function sets (conditionally assigned locals read unconditionally, overloads by arity, table/string parameters mutated in place, "
+        "locals named like the caller's variables, loops, handlers, calls of earlier functions) are driven by histories of 2-12 guarded calls "
+        "including failing bodies and failing argument evaluation; prints, results, caller variables and outcome must equal the reference "
+        "interpreter in which every call starts unset; independently a twin pair runs the same target call after a random history and in a fresh "
+        "context and must agree; the recursion ladder checks depths 1,2,3,100,254,255 succeed and 256,257,300,1000 raise the recursion-limit error "
+        "(direct and mutual recursion) leaving the context usable; after every run live contexts = root + parse contexts + cached contexts.",
+   note="trusted: python reference interpreter; declared parameter/return types are never relied upon (manual: not enforced); workers run with a 1 GiB stack",
+   design="4/C08"),
  "C09": dict(
    technique="model-based runtime monitor: random container-operation sequences checked against a python list model + structural uniformity invariant on deep dumps + ASan/UBSan",
    text="Random sequences (8-25 steps) of at/put/insert/delete/concat/count on tables of integer, decimal, string, boolean, integer tables and "
